@@ -1210,3 +1210,42 @@ pub fn check_c05_concurrent(h: &Hist) -> POut {
     }
     out
 }
+
+// ------------------------------------------------------------------------------------------
+// C05: the periodic cleanup is not starved by insert traffic
+// ------------------------------------------------------------------------------------------
+
+/// The processor's event loop chooses among its ready sources; a cleanup tick that is due must
+/// be served within a bounded number of applied items, however much insert traffic there is
+/// (otherwise "within one bucket width plus one cleanup interval" is void under load).
+pub fn check_c05_tick_starvation(h: &Hist) -> POut {
+    let mut out = POut::new();
+    if !h.built_ok {
+        return out;
+    }
+    // futures::select! serves a ready timer with probability >= 1/4 per round, crossbeam's with
+    // 1/2: missing it 100 times in a row has probability < 1e-12
+    const K: usize = 100;
+    // item applications by the processor, with the virtual time at which they started
+    let items: Vec<(u64, u64)> = h.obs().filter(|(e, o)| e.task.starts_with("processor") && matches!(o, ObsEv::AddEnter { .. } | ObsEv::CostUpdate { .. })).map(|(e, _)| (e.seq, e.now)).collect();
+    let mut worst = 0usize;
+    let mut flagged = false;
+    for (e, o) in h.obs() {
+        let ObsEv::TickTaken { due_ns } = o else { continue };
+        let n = items.iter().filter(|(seq, now)| *now >= *due_ns && *seq < e.seq).count();
+        // only items applied after the tick became due AND before it was taken count; earlier
+        // ticks' windows overlap, so count from the previous TickTaken
+        let prev_taken = h.obs().filter(|(f, p)| matches!(p, ObsEv::TickTaken { .. }) && f.seq < e.seq).map(|(f, _)| f.seq).last().unwrap_or(0);
+        let n = n.min(items.iter().filter(|(seq, now)| *now >= *due_ns && *seq < e.seq && *seq > prev_taken).count());
+        worst = worst.max(n);
+        if n > K && !flagged {
+            flagged = true;
+            out.violations.push(viol("C05", "R4-cleanup-tick-starved", e.seq, "a due cleanup tick was served only after dozens of buffered items had been applied", format!("the tick due at t={} was taken at seq {} after {} item applications that started while it was due (bound {})", due_ns, e.seq, n, K)));
+        }
+    }
+    if worst > 0 {
+        out.probe("items_applied_while_a_tick_was_due_(max_per_run)", worst as u64);
+        out.nontrivial = true;
+    }
+    out
+}
